@@ -5,10 +5,10 @@ import os
 from lib.ctx import REPO
 
 
-def registry_cfg(maxcreate, maxobs):
-    return ("SPECIFICATION Spec\nCONSTANTS\n MaxCreate = %d\n MaxObserve = %d\n"
+def registry_cfg(maxcreate, maxobs, maxuser=0, jpl=False):
+    return ("SPECIFICATION Spec\nCONSTANTS\n MaxCreate = %d\n MaxObserve = %d\n MaxUser = %d\n WithJpl = %s\n"
             "INVARIANT OrientForest\nINVARIANT CentreForest\nINVARIANT AllConnected\nINVARIANT AllRouted\n"
-            "PROPERTY ChainsStable\nCHECK_DEADLOCK FALSE\n" % (maxcreate, maxobs))
+            "PROPERTY ChainsStable\nCHECK_DEADLOCK FALSE\n" % (maxcreate, maxobs, maxuser, "TRUE" if jpl else "FALSE"))
 
 
 def trace_cfg(n):
@@ -18,11 +18,15 @@ def trace_cfg(n):
 
 def run(ctx):
     thorough = ctx.tier == "thorough"
-    mc, mo = (3, 1) if thorough else (2, 1)
-    r = ctx.tlc("Registry", label=f"registry MaxCreate={mc} MaxObserve={mo}", workers=16, dump=True,
-                dump_only=["acts"], cfg_text=registry_cfg(mc, mo), timeout=3000)
+    # (creations, observations, user-defined frames, planetary kernel): several bounded configurations instead of one big one
+    configs = [(2, 1, 0, True), (1, 1, 1, False)] if not thorough else [(3, 1, 0, False), (2, 1, 0, True), (2, 1, 1, False), (1, 1, 1, True)]
+    dumps = []
+    for (mc, mo, mu, jpl) in configs:
+        r = ctx.tlc("Registry", label=f"registry MaxCreate={mc} MaxObserve={mo} MaxUser={mu} WithJpl={jpl}", workers=16, dump=True,
+                    dump_only=["acts"], cfg_text=registry_cfg(mc, mo, mu, jpl), timeout=5000)
+        dumps += r.dump
     behaviours = []
-    allacts = [list(st["acts"]) for st in r.dump]
+    allacts = [list(st["acts"]) for st in dumps]
     prefixes = set()
     for a in allacts:
         for j in range(len(a)):
